@@ -217,7 +217,7 @@ def extra_shared_writes(P, funcs):
                 if base is not None and (f.rd.is_local(base.id)):
                     ns = g.node_of_stmt(n)
                     if ns:
-                        cl = f.rd.closure_nodes(base, ns[0])
+                        cl = f.rd.closure_nodes(base, ns[0], follow_mut=False)
                         if any(isinstance(x, ast.Attribute) and x.attr in ('errors_map', 'domain_map') for x in cl) and \
                                 any((isinstance(x, ast.Call) and call_attr(x) == 'get') or isinstance(x, ast.Subscript) for x in cl):
                             out.append(dict(func=f, node=n, target='config-object:errors_map[...]' + ('.' + t.attr if isinstance(t, ast.Attribute) else '[...]'), kind=kind))
@@ -320,5 +320,5 @@ def _exc_origin(P, f, e, at, seen, depth=0):
 
 def mapping_lookup_origin(P, f, e, at):
     """True when e derives from `<mapping>.get(...)` / `<mapping>[...]` of a configuration-level mapping"""
-    cl = f.rd.closure_nodes(e, at)
+    cl = f.rd.closure_nodes(e, at, follow_mut=False)
     return [x for x in cl if (isinstance(x, ast.Call) and call_attr(x) == 'get') or isinstance(x, ast.Subscript)]
